@@ -523,4 +523,55 @@ theorem semverCell_eq_spec (hv : Bool) (iv : Interval) (h : hv = false ∨ ∀ v
       | fixed v p => rfl
       | lastAffected v p => exact absurd hc (h v p)
 
+/-! ### OSV: other ecosystems, severity selection, repository hints -/
+
+/-- What one event of an ECOSYSTEM range of an ecosystem without encoder does to the range's only cell. -/
+def otherUpd (c : Cell) (ev : OsvEvent) : Cell :=
+  if ev.introduced = "" ∧ ev.fixed ≠ "" then { c with fixed := ev.fixed } else c
+
+theorem runOther_eq (hv : Bool) : ∀ (evs : List OsvEvent) (s : EvState), s.closed = [] → s.curCount ≤ 1 →
+    (runEvents .other hv s evs).vers = if evs.isEmpty then s.vers else [evs.foldl otherUpd s.cur]
+  | [], s, _, _ => by simp [runEvents]
+  | ev :: rest, s, h1, h2 => by
+    simp only [runEvents, List.isEmpty_cons, Bool.false_eq_true, if_false, List.foldl_cons]
+    have hs : stepOther s ev = { s with cur := otherUpd s.cur ev, curCount := 1 } := by
+      unfold stepOther EvState.appendOnce otherUpd
+      have : s.curCount = 0 ∨ s.curCount = 1 := by omega
+      rcases this with h | h <;> simp [h]
+    rw [hs]
+    have ih := runOther_eq hv rest { s with cur := otherUpd s.cur ev, curCount := 1 } h1 (by simp)
+    rw [ih]
+    cases rest with
+    | nil => simp [EvState.vers, h1]
+    | cons _ _ => simp
+
+theorem osvCvss_append (a b : List OsvSeverity) (acc : String × Nat) : osvCvss (a ++ b) acc = osvCvss b (osvCvss a acc) := by
+  induction a generalizing acc with
+  | nil => rfl
+  | cons s rest ih => simp only [List.cons_append, osvCvss]; split <;> exact ih _
+
+theorem osvCvss_none (l : List OsvSeverity) (acc : String × Nat) (h : ∀ s ∈ l, s.type ≠ "CVSS_V3" ∧ s.type ≠ "CVSS_V2") :
+    osvCvss l acc = acc := by
+  induction l generalizing acc with
+  | nil => rfl
+  | cons s rest ih =>
+    simp only [osvCvss]
+    have := h s (List.mem_cons_self ..)
+    rw [if_neg (by simp [this.1, this.2])]
+    exact ih _ (fun s' hs' => h s' (List.mem_cons_of_mem _ hs'))
+
+theorem shareHints_id (vs : List Vuln) (h : ∀ v ∈ vs, ∀ w ∈ vs, v.pkgName = w.pkgName → v.pkgHint = w.pkgHint) :
+    shareHints vs = vs := by
+  unfold shareHints
+  conv => rhs; rw [← List.map_id vs]
+  apply List.map_congr_left
+  intro v hv
+  cases hf : vs.find? (fun w => w.pkgName == v.pkgName) with
+  | none => rfl
+  | some w =>
+    have hw := List.mem_of_find?_eq_some hf
+    have hn : w.pkgName = v.pkgName := by have := List.find?_some hf; simpa using this
+    simp only [id]
+    rw [← h v hv w hw hn.symm]
+
 end ClairModel.Feeds
